@@ -172,9 +172,9 @@ func quadsOfGo(ts []rdf.Triple) []rdf.Quad {
 
 // normalisations used to recognise known defects (and to mask opaque XML literals of corpus documents)
 type norm struct {
-	emptyTagToPlain bool // a language-tagged string with the empty tag -> xsd:string   (only the defect produces one)
-	emptyLexNoLang  bool // ""@l -> ""                                                  (both sides)
-	maskXMLLiteral  bool // lexical form of rdf:XMLLiteral -> ""                        (both sides)
+	emptyTagToPlain bool   // a language-tagged string with the empty tag -> xsd:string   (only the defect produces one)
+	emptyLexNoLang  bool   // ""@l -> ""                                                  (both sides)
+	maskXMLLiteral  bool   // lexical form of rdf:XMLLiteral -> ""                        (both sides)
 	predViaResolve  string // non-empty: every predicate IRI is passed through ParsedIRI.Parse(..).String() with this base (both sides)
 }
 
@@ -218,11 +218,11 @@ func (n norm) apply(qs []rdf.Quad) []rdf.Quad {
 // ---------------------------------------------------------------- predicates of the known findings
 
 const (
-	predLangEmpty  = "xml-lang-empty-string"
-	predResScope   = "resource-property-element-scope"
-	predRdfPAttr   = "rdf-ns-property-attr-on-empty-element"
-	predEmptyLang  = "empty-literal-language"
-	predPAttrPred  = "property-attr-predicate-resolved"
+	predLangEmpty = "xml-lang-empty-string"
+	predResScope  = "resource-property-element-scope"
+	predRdfPAttr  = "rdf-ns-property-attr-on-empty-element"
+	predEmptyLang = "empty-literal-language"
+	predPAttrPred = "property-attr-predicate-resolved"
 )
 
 type treeFacts struct {
@@ -365,16 +365,17 @@ func analyse(root *Node) *treeFacts {
 // ---------------------------------------------------------------- one document
 
 type docCase struct {
-	origin   string // "plan" | "w3c:<path>" | "replay"
-	base     string
-	doc      []byte
-	tree     *Node
-	wf       bool     // plan accepted by RX.wfDoc (plans only)
-	intended []string // the generator's graph (plans only; nil otherwise)
-	denote   string   // "ok …" | "err:syntax" | "err:unsupported" | "" (no model)
-	expectNT []string // published result (W3C positive tests)
-	negative bool     // W3C negative syntax test
-	plan     string   // protocol line (plans)
+	origin    string // "plan" | "w3c:<path>" | "replay"
+	base      string
+	doc       []byte
+	tree      *Node
+	wf        bool     // plan accepted by RX.wfDoc (plans only)
+	intended  []string // the generator's graph (plans only; nil otherwise)
+	denote    string   // "ok …" | "err:syntax" | "err:unsupported" | "" (no model)
+	expectNT  []string // published result (W3C positive tests)
+	negative  bool     // W3C negative syntax test
+	plan      string   // protocol line (plans)
+	denoteIso bool     // the denotation lists the intended triples in another order (graph route)
 }
 
 type pending struct {
@@ -446,7 +447,7 @@ func (h *harness) evaluate(c *docCase) {
 	switch {
 	case c.intended != nil && (c.wf || c.denote == ""):
 		expected, haveExpected = c.intended, true
-		if c.denote != "" && c.denote != "ok "+joinWire(c.intended) {
+		if c.denote != "" && !c.denoteIso && c.denote != "ok "+joinWire(c.intended) {
 			h.add(vh.Case{Kind: "disagreement", Op: c.plan, Model: c.denote, Go: joinWire(c.intended), Detail: "RX.denoteDoc of a plan accepted by RX.wfDoc differs from the generator's intended graph"})
 		}
 	case strings.HasPrefix(c.denote, "ok "):
@@ -603,6 +604,7 @@ type planItem struct {
 	intended []string
 	line     string
 	rng      *vh.Rng
+	planted  bool // the generator planted an inconsistency: RX.wfDoc must reject the plan
 }
 
 func (h *harness) runPlans(n int, root *vh.Rng, d vh.Driver, perPlan int) {
@@ -618,8 +620,8 @@ func (h *harness) runPlans(n int, root *vh.Rng, d vh.Driver, perPlan int) {
 		lines := make([]string, m)
 		for i := range items {
 			r := root.Fork()
-			p, base, intended := genPlan(r, feat)
-			items[i] = planItem{plan: p, base: base, intended: intended, rng: r}
+			p, base, intended, planted := genPlan(r, feat)
+			items[i] = planItem{plan: p, base: base, intended: intended, rng: r, planted: planted}
 			items[i].line = "rx.plan " + vh.XS(base) + " " + p.Wire()
 			lines[i] = items[i].line
 		}
@@ -669,6 +671,9 @@ func (h *harness) onePlan(it *planItem, res []string, i, perPlan int, serHist ma
 	if it.intended == nil {
 		c.intended = []string{}
 	}
+	if res == nil && it.planted {
+		return // without the model there is nothing to compare a deliberately inconsistent plan with
+	}
 	if res != nil {
 		f := strings.Split(res[i], " | ")
 		if len(f) != 4 {
@@ -686,6 +691,9 @@ func (h *harness) onePlan(it *planItem, res []string, i, perPlan int, serHist ma
 		if f[3] != joinWire(it.intended) {
 			h.add(vh.Case{Kind: "disagreement", Op: it.line, Model: f[3], Go: joinWire(it.intended), Detail: "RX.flatDoc differs from the graph the generator intended"})
 			return
+		}
+		if c.wf && it.planted {
+			h.add(vh.Case{Kind: "disagreement", Op: it.line, Model: "wf=1", Detail: "RX.wfDoc accepts a plan in which the generator planted an inconsistency between a written form and its intended value"})
 		}
 		if c.wf {
 			h.count("plan:wf")
@@ -773,6 +781,10 @@ func main() {
 			plans = 250000 * *scale
 		}
 		h.runPlans(plans, root, d, 2)
+		h.runGraphs(plans/2, root, d, 2)
+	}
+	if rep.Cases == nil {
+		rep.Cases = []vh.Case{}
 	}
 	sort.SliceStable(rep.Cases, func(i, j int) bool { return rep.Cases[i].Kind > rep.Cases[j].Kind })
 	if err := rep.Write(*out); err != nil {
